@@ -103,6 +103,20 @@ NOT_APPLICABLE = {
 
 PENDING = {}
 
+# sentences appended to the level text as the checks were strengthened (rounds 2 and 3 of seeded changes)
+EXTRA = {
+    "C04": "The same arrival orders x faults are also replayed as the PCnn banks of one main event and judged by the order-free requirement of MainEvent.tla, so that a premature or order-dependent reassembly in the event builder is seen here as well.",
+    "C09": "Ring occupancies (every wire, every wire but one, a block across the 255/0 seam, halves, alternate wires, single wires 0 and 255) are part of the shapes.",
+    "C10": "Rail and near-rail samples are compared exactly under the simulation run; the maps of the configuration trace must be injective (MapsInjective), so that a broken map in the library cannot redefine the requirement.",
+    "C19": "Serial numbers are treated as data (increasing, restarting per file, decreasing, constant, arbitrary); unknown extensions include names that merely end in the letters of a known one. Liveness of the worker-pool model (Terminates under weak fairness, no stuck state) is checked by TLC.",
+    "C20": "Corrupted words include every one-bit neighbour of the marker and timestamp tag bytes, in scenarios where nothing else can explain a failure.",
+    "C03": "Every combination of one flipped bit in each of the two stored CRC words, all 24 byte orders of each word, complements, rotations, exchanged words and the IEEE polynomial are enumerated on the implementation.",
+    "C11": "Chunk header fields that must not matter are re-drawn and used as sort keys for arrival orders; simulated events are also built under a real-data run number with other delays and gains in the same process and compared with fresh processes (history independence).",
+    "C08": "The maps are also asked for run r2 right after run r1 for every ordered pair of ten boundary runs (history independence); the 128^4 sweep is memory-bounded whatever the code accepts.",
+    "C18": "Every slice boundary is also looked up immediately after eight other positions (history independence).",
+    "C02": "Length classes 12..44 ending in the footer of the accepted 16-byte form are part of the decision table.",
+}
+
 TECH_OVERRIDE = {
     "C12": "explicit TLA+ specification of the statement's acceptance criterion (Accuracy.tla); TLC trace validation of recorded batches of forward-model events reconstructed by the library (E3); TLC model check of the order-statistic operators (E1)",
     "C19": "explicit TLA+ spec; TLC model checking incl. liveness under fairness (E1); spec-generated runs replayed through the real binaries (E2); TLC trace validation of recorded runs (E3); Apalache inductive invariant for the unwrap arithmetic (thorough)",
@@ -123,7 +137,7 @@ def main():
                 "evidence_file": "evidence/%s.json" % pid,
                 "replay_cmd_template": "./check %s --replay {path}" % pid,
                 "engine": "tlc",
-                "level_claimed": {"category": cat, "text": text, "design_ref": "DESIGN.md " + ref},
+                "level_claimed": {"category": cat, "text": text + (" " + EXTRA[pid] if pid in EXTRA else ""), "design_ref": "DESIGN.md " + ref},
                 "level_note": note,
                 "technique": TECH_OVERRIDE.get(pid, TECH),
             })
